@@ -695,6 +695,10 @@ func RuleBroadcastHelper(r *Report, p *Program) {
 		res := pa.Results[0]
 		if res.Op == "sref" {
 			for _, e := range srefElems(res) {
+				// v.(T) on the decoded value (a generic helper) keeps the value
+				for e.Op == "conv" && strings.HasPrefix(e.Name, "assert:") && len(e.Args) == 1 {
+					e = e.Args[0]
+				}
 				have = append(have, e.String())
 			}
 		} else if !res.IsNilConst() {
